@@ -2,6 +2,7 @@ package c03
 
 import (
 	"bytes"
+	"os"
 	"regexp"
 	"fmt"
 	"net"
@@ -109,6 +110,9 @@ func runSessionsLive(c isoCase, which []int, order []int) (map[int]*result, func
 			deadline := time.Now().Add(5 * time.Second)
 			for len(d.Snapshot()) == 0 && time.Now().Before(deadline) {
 				time.Sleep(200 * time.Microsecond)
+			}
+			if len(d.Snapshot()) == 0 && os.Getenv("C03_DEBUG") != "" {
+				fmt.Fprintf(os.Stderr, "NOREPLY session %d step %d names=%v hex=%s\n", i, before, c.Sessions[i].Names, c.Sessions[i].Steps[before][:min(60, len(c.Sessions[i].Steps[before]))])
 			}
 		}
 		if c.History > 0 && opened[i].Done() {
